@@ -6,6 +6,7 @@ mod c19;
 mod c19m;
 mod exec_medium;
 mod case;
+mod exec_conv;
 mod exec_cross;
 mod exec_float;
 mod exec_int;
